@@ -1,6 +1,7 @@
 import Srctools.Proofs.C20
 import Srctools.Proofs.C20Tok
 import Srctools.Proofs.C20Img
+import Srctools.Proofs.C20Bvcd
 import Srctools.Props.C02
 import Srctools.Gen.C20
 import Srctools.Gen.Tok
@@ -17,6 +18,7 @@ The models are generic in the constants extracted from the source (`Gen/C20.lean
 has *now* satisfy the decidable side conditions and have the shapes the model hard-codes.
 -/
 namespace C20
+open C20.Bvcd
 
 /-! ## obligations on the current source -/
 
@@ -213,6 +215,121 @@ theorem C20_image_table (v : Nat) (hv : v = 2 ∨ v = 3) (es : List Entry) (hok 
     | some x =>
       simp [hr] at hg
       exact ⟨toParsed v x, hj, rfl, by simpa [toParsed] using hg⟩
+
+/-! ## BVCD: the binary scene codec -/
+
+namespace Bvcd
+
+/-- OBLIGATION on the current source: enum values / constants the codec model hard-codes, and the
+struct formats, literal byte writes and literal read sizes of every binary writer and reader. -/
+theorem C20_gen_bvcd :
+    Gen.C20.bvcdEnums = [("EventType.Gesture", tGesture), ("EventType.Loop", tLoop), ("EventType.Speak", tSpeak),
+      ("EventType.max", tMax), ("EventType.count", tMax + 1), ("CaptionType.Disabled", ccDisabled),
+      ("CaptionType.max", ccDisabled), ("EventFlags.end", flagsEnd), ("Interpolation.max", interpMax),
+      ("BINARY_VERSION", binVersion)] ∧
+    Gen.C20.bvcdCurveFmt = "<fB" ∧
+    Gen.C20.bvcdFmts = [("Tag.export_binary", ["B", "@add_to_pool(tag.name)"]), ("Tag.parse_binary", ["read:1", "@cls._FMT"]),
+      ("Curve.export_binary", ["B", "@sample.time"]), ("Curve.parse_binary", ["read:1", "@cls.BIN_FMT"]),
+      ("FlexAnimTrack.export_binary", ["<hBffh", "<fBh", "<H", "<fBh"]),
+      ("FlexAnimTrack.parse_binary", ["<hBffh", "<fBH", "<H", "<fBH"]),
+      ("Event.export_binary", ["<bhffhhh", "<Bf", "f", "bytes:01", "<hh", "bytes:00", "<B", "<b", "<bhb"]),
+      ("Event.parse_binary", ["<bhffhhh", "<Bf", "<f", "read:1", "<hh", "read:1", "b", "<Bhb"]),
+      ("Channel.export_binary", ["<hB"]), ("Channel.parse_binary", ["<hB", "read:1"]),
+      ("Actor.export_binary", ["<hB"]), ("Actor.parse_binary", ["<hB", "read:1"]),
+      ("Scene.export_binary", ["<4sbIB", "B"]), ("Scene.parse_binary", ["read:4", "read:1", "<IB", "read:1", "read:1"])] := by
+  decide
+
+/-- **Tags** (record-type theorem): a `Tag`/`TimingTag` list is read back with its names (through
+the pool) and every value quantised to k/255; an `AbsoluteTag` list with values quantised to
+k/4096 — whatever follows in the file. -/
+theorem C20_bvcd_tags_partial (ix : Bytes → Nat) (pool : List Bytes) (ts : List Tag)
+    (h : tagsOK ix pool ts) (rest : Bytes) :
+    rdTags pool (encTags ix ts ++ rest) = some (ts.map qTag, rest) ∧
+    rdAbsTags pool (encAbsTags ix ts ++ rest) = some (ts.map qAbsTag, rest) :=
+  ⟨reads_tags ts h rest, reads_absTags ts h rest⟩
+
+/-- **Ramp** (`Curve`): samples come back with float32 times unchanged and values quantised. -/
+theorem C20_bvcd_ramp_partial (r : List RampSample) (h : rampOK r) (rest : Bytes) :
+    rdRamp (encRamp r ++ rest) = some (r.map qRampSample, rest) := reads_ramp r h rest
+
+/-- **Flex sample / flex track**: time, quantised value and both interpolation codes; the track
+with its name, flags, range, magnitude samples and optional direction samples. -/
+theorem C20_bvcd_flex_partial (ix : Bytes → Nat) (pool : List Bytes) (f : Flex) (h : flexOK ix pool f)
+    (s : FlexSample) (hs : fsOK s) (rest : Bytes) :
+    rdFlexSample (encFlexSample s ++ rest) = some (qFlexSample s, rest) ∧
+    rdFlex pool (encFlex ix f ++ rest) = some (qFlex f, rest) :=
+  ⟨reads_flexSample s hs rest, reads_flex f h rest⟩
+
+/-- **Event** (header, ramp, flags, four tag lists, gesture duration, relative tag, flex tracks,
+loop count / caption block — all four event classes). -/
+theorem C20_bvcd_event_partial (ix : Bytes → Nat) (pool : List Bytes) (e : Event) (h : eventOK ix pool e)
+    (rest : Bytes) : rdEvent pool (encEvent ix e ++ rest) = some (qEvent e, rest) := reads_event e h rest
+
+/-- **Scene codec round trip**, generic in the pool: for every index function `ix` and pool that
+agree on the scene's strings (`sceneOK`: indices below 32768 resolved by the pool, counts within
+their fields, enum codes valid), `parse_binary (export_binary s) = quantScene s` — the scene with
+every 1/255 and 1/4096 field quantised, a relative tag completed with `''`, and the combined-file
+flag dropped for disabled captions — also when other data follows. -/
+theorem C20_bvcd (ix : Bytes → Nat) (pool : List Bytes) (s : Scene) (h : sceneOK ix pool s)
+    (trailing : Bytes) : decodeScene pool (encScene ix s ++ trailing) = some (quantScene s) := by
+  unfold decodeScene
+  rw [reads_scene s h trailing]
+  rfl
+
+/-- **Idempotence.** The projection is idempotent and the writer cannot tell a scene from its
+projection: the second generation of a file is byte-identical and decodes to the same scene. -/
+theorem C20_bvcd_idem (ix : Bytes → Nat) (pool : List Bytes) (s : Scene) (h : sceneOK ix pool s) :
+    quantScene (quantScene s) = quantScene s ∧
+    encScene ix (quantScene s) = encScene ix s ∧
+    decodeScene pool (encScene ix (quantScene s)) = some (quantScene s) := by
+  refine ⟨quantScene_idem s, encScene_q ix s, ?_⟩
+  rw [encScene_q]
+  simpa using C20_bvcd ix pool s h []
+
+/-- **Pool.** The indices `add_to_pool` hands out while the pool grows are the indices of those
+strings in the final pool, the final pool is `addAll`, and every string in a pool of at most
+32768 entries satisfies the codec's hypothesis with `ix = poolIndex pool`. -/
+theorem C20_bvcd_pool (p ss : List Bytes) :
+    (threadIdx p ss).2 = addAll p ss ∧ (threadIdx p ss).1 = ss.map (poolIndex (addAll p ss)) ∧
+    ((addAll p ss).length ≤ 32768 → ∀ s ∈ ss, strOK (poolIndex (addAll p ss)) (addAll p ss) s) := by
+  refine ⟨(threadIdx_spec p ss).1, (threadIdx_spec p ss).2, ?_⟩
+  intro hl s hs
+  exact strOK_of_mem _ hl s ((mem_addAll p ss s).mpr (Or.inr hs))
+
+/-! non-vacuity: a scene with every event class, tags, ramp, flex tracks with and without
+direction, relative tag, inactive channel; its own pool. -/
+def sampleScene : Scene :=
+  let t : Tag := { name := [0x74], value := (127, 2) }
+  let fs : FlexSample := { time := 0x3F000000, value := (255, 2), c1 := 6, c2 := 15 }
+  let ev (x : Extra) (n : Bytes) : Event :=
+    { extra := x, name := n, start := 0x3F800000, stop := 0xBF800000, p1 := [0x70], p2 := [], p3 := n,
+      ramp := [{ time := 0, value := (3, 4) }], flags := 9, dist := 0, rel := [t], timing := [], absP := [t],
+      absS := [], tagName := some [0x61], tagWav := none,
+      flex := [{ name := [0x66], active := true, min := 0, max := 0x3F800000, mag := [fs], dir := some [fs, fs] },
+               { name := [0x46], active := false, min := 0, max := 0, mag := [], dir := none }] }
+  { crc := 0xDEADBEEF, events := [ev (.plain 9) [0x41], ev (.gesture 0x40000000) [0x61]],
+    actors := [{ name := [0x41], active := false,
+                 channels := [{ name := [0x63], active := true,
+                                events := [ev (.loop (-1)) [], ev (.speak 2 [0x54] true false true) [0x73]] }] }],
+    ramp := [{ time := 1, value := (-1, 1) }, { time := 2, value := (1000, 1) }], ignorePhonemes := true }
+
+def samplePool : List Bytes := addAll [] (sceneStrs sampleScene)
+
+example : decodeScene samplePool (encScene (poolIndex samplePool) sampleScene)
+    = some (quantScene sampleScene) ∧ quantScene sampleScene ≠ sampleScene := by decide +kernel
+
+example : strOK (poolIndex samplePool) samplePool [0x61] ∧ tagsOK (poolIndex samplePool) samplePool
+    [{ name := [0x74], value := (127, 2) }] ∧ rampOK sampleScene.ramp := by
+  refine ⟨by decide +kernel, ⟨by decide, ?_⟩, ⟨by decide, ?_⟩⟩
+  · intro t ht
+    simp only [List.mem_cons, List.not_mem_nil, or_false] at ht
+    subst ht
+    decide +kernel
+  · intro r hr
+    simp only [sampleScene, List.mem_cons, List.not_mem_nil, or_false] at hr
+    rcases hr with rfl | rfl <;> (unfold f32; decide)
+
+end Bvcd
 
 /-! ## quantised fields -/
 
